@@ -4,10 +4,15 @@
 use std::cell::RefCell;
 use std::collections::HashMap;
 use std::convert::From;
+#[cfg(not(prometheus_verif))]
 use std::sync::{
     atomic::{AtomicU64 as StdAtomicU64, Ordering},
     Arc, Mutex,
 };
+#[cfg(prometheus_verif)]
+use crate::verif_sync::{AtomicU64 as StdAtomicU64, Mutex, Ordering};
+#[cfg(prometheus_verif)]
+use std::sync::Arc;
 use std::time::{Duration, Instant as StdInstant};
 
 use crate::atomic64::{Atomic, AtomicF64, AtomicU64};
